@@ -222,6 +222,9 @@ PROPS["C10"]["level_text"] += (
 PROPS["C13"]["level_text"] += (
     "; the base against which the decoding loop resolves relative jumps (third argument of to_arg) is translated too: "
     "C13_relative_jump_base_is_the_source (it is next_offset - the offset after the instruction and its prefixes - for all inputs)")
+PROPS["C10"]["level_text"] += (
+    "; the LineMapping methods used around the codec (pop_additional_line as its caller sees it, add_additional_line, modify_line_offsets) are "
+    "re-translated (Gen/SrcLineMap.v) and tied for all mappings: C10_line_mapping_methods_are_the_source")
 PROPS["C04"]["level_text"] += (
     "; the four functions of _args.py are tied to the source by proof for ALL inputs (C04_args_functions_are_the_source: Gen/SrcArgs.v, "
     "re-translated on every run, equals Model/Args.v)")
